@@ -87,6 +87,28 @@ var c04SelfTests = []SelfTest{
 	{Name: "udp associations start with a placeholder zero-value key", ExpectRule: "C04.R5", ExpectKey: "(*udp.Association).Encrypt", Edits: []Edit{
 		{File: "internal/udp/association.go", Old: "\t\tLastActivity: now,\n\t\tctx:          ctx,\n", New: "\t\tLastActivity: now,\n\t\tSessionKey:   new(crypto.SessionKey),\n\t\tctx:          ctx,\n"},
 	}},
+	{Name: "rewrite: relayed UDP_OPEN built by a helper", Edits: []Edit{
+		{File: "internal/agent/udp.go", Old: "\tfwdOpen := &protocol.UDPOpen{\n\t\tRequestID:       open.RequestID,\n\t\tAddressType:     open.AddressType,\n\t\tAddress:         open.Address,\n\t\tPort:            open.Port,\n\t\tTTL:             open.TTL,\n\t\tRemainingPath:   newPath,\n\t\tEphemeralPubKey: open.EphemeralPubKey,\n\t}\n", New: "\tfwdOpen := forwardedUDPOpen(open, newPath)\n"},
+		{File: "internal/agent/udp.go", Old: "// handleUDPOpenAck processes a UDP_OPEN_ACK frame.\n", New: "func forwardedUDPOpen(in *protocol.UDPOpen, rest []identity.AgentID) *protocol.UDPOpen {\n\treturn &protocol.UDPOpen{\n\t\tRequestID:       in.RequestID,\n\t\tAddressType:     in.AddressType,\n\t\tAddress:         in.Address,\n\t\tPort:            in.Port,\n\t\tTTL:             in.TTL,\n\t\tRemainingPath:   rest,\n\t\tEphemeralPubKey: in.EphemeralPubKey,\n\t}\n}\n\n// handleUDPOpenAck processes a UDP_OPEN_ACK frame.\n"},
+	}},
+	{Name: "rewrite: udp association hands the key to a sealing helper inside its critical section", Edits: []Edit{
+		{File: "internal/udp/association.go", Old: "\treturn a.SessionKey.Encrypt(plaintext)\n}\n", New: "\treturn sealWith(a.SessionKey, plaintext)\n}\n\nfunc sealWith(k *crypto.SessionKey, p []byte) ([]byte, error) {\n\treturn k.Encrypt(p)\n}\n"},
+	}},
+	{Name: "sealing helper called after the critical section was left", ExpectRule: "C04.R4", ExpectKey: "sealWith", Edits: []Edit{
+		{File: "internal/udp/association.go", Old: "\ta.mu.RLock()\n\tdefer a.mu.RUnlock()\n\n\tif a.SessionKey == nil {\n\t\treturn nil, ErrNoSessionKey\n\t}\n\n\treturn a.SessionKey.Encrypt(plaintext)\n}\n", New: "\ta.mu.RLock()\n\tkey := a.SessionKey\n\ta.mu.RUnlock()\n\tif key == nil {\n\t\treturn nil, ErrNoSessionKey\n\t}\n\treturn sealWith(key, plaintext)\n}\n\nfunc sealWith(k *crypto.SessionKey, p []byte) ([]byte, error) {\n\treturn k.Encrypt(p)\n}\n"},
+	}},
+	{Name: "rewrite: datagram payload encoded through a helper", Edits: []Edit{
+		{File: "internal/agent/udp.go", Old: "\t\tStreamID: streamID,\n\t\tPayload:  datagram.Encode(),\n", New: "\t\tStreamID: streamID,\n\t\tPayload:  datagramPayload(datagram),\n"},
+		{File: "internal/agent/udp.go", Old: "// Compile-time interface verification\nvar _ udp.DataWriter = (*Agent)(nil)", New: "func datagramPayload(d *protocol.UDPDatagram) []byte {\n\treturn d.Encode()\n}\n\n// Compile-time interface verification\nvar _ udp.DataWriter = (*Agent)(nil)"},
+	}},
+	{Name: "rewrite: reply datagram built by a constructor helper", Edits: []Edit{
+		{File: "internal/udp/handler.go", Old: "\t\tdatagram := &protocol.UDPDatagram{\n\t\t\tAddressType: addrType,\n\t\t\tAddress:     addr,\n\t\t\tPort:        uint16(remoteAddr.Port),\n\t\t\tData:        ciphertext,\n\t\t}\n", New: "\t\tdatagram := newReplyDatagram(addrType, addr, uint16(remoteAddr.Port), ciphertext)\n"},
+		{File: "internal/udp/handler.go", Old: "// cleanupLoop periodically removes expired associations.\n", New: "func newReplyDatagram(t uint8, addr []byte, port uint16, data []byte) *protocol.UDPDatagram {\n\treturn &protocol.UDPDatagram{AddressType: t, Address: addr, Port: port, Data: data}\n}\n\n// cleanupLoop periodically removes expired associations.\n"},
+	}},
+	{Name: "constructor helper fed with the plaintext datagram", ExpectRule: "C04.R1", ExpectKey: "WriteUDPDatagram", Edits: []Edit{
+		{File: "internal/udp/handler.go", Old: "\t\tdatagram := &protocol.UDPDatagram{\n\t\t\tAddressType: addrType,\n\t\t\tAddress:     addr,\n\t\t\tPort:        uint16(remoteAddr.Port),\n\t\t\tData:        ciphertext,\n\t\t}\n", New: "\t\t_ = ciphertext\n\t\tdatagram := newReplyDatagram(addrType, addr, uint16(remoteAddr.Port), plaintext)\n"},
+		{File: "internal/udp/handler.go", Old: "// cleanupLoop periodically removes expired associations.\n", New: "func newReplyDatagram(t uint8, addr []byte, port uint16, data []byte) *protocol.UDPDatagram {\n\treturn &protocol.UDPDatagram{AddressType: t, Address: addr, Port: port, Data: data}\n}\n\n// cleanupLoop periodically removes expired associations.\n"},
+	}},
 	{Name: "rewrite: udp association seals with explicit unlocks instead of defer", Edits: []Edit{
 		{File: "internal/udp/association.go", Old: "\ta.mu.RLock()\n\tdefer a.mu.RUnlock()\n\n\tif a.SessionKey == nil {\n\t\treturn nil, ErrNoSessionKey\n\t}\n\n\treturn a.SessionKey.Encrypt(plaintext)\n", New: "\ta.mu.RLock()\n\tkey := a.SessionKey\n\tif key == nil {\n\t\ta.mu.RUnlock()\n\t\treturn nil, ErrNoSessionKey\n\t}\n\tct, err := key.Encrypt(plaintext)\n\ta.mu.RUnlock()\n\treturn ct, err\n"},
 	}},
@@ -829,6 +851,17 @@ func (cx *c04Ctx) encodeCall(e *c04Eval, c *ssa.Call, msgTypes map[*types.Named]
 			return cx.dataOf(e, recv, n, map[ssa.Value]bool{})
 		}
 	}
+	// a repository helper that wraps the encoding: judge what it returns
+	if g := cal.Static; g != nil && g.Blocks != nil && kit.IsRepoPkg(kit.FuncPkgPath(g)) && kit.FuncPkgPath(g) != kit.PkgPath("internal/protocol") {
+		var out []c04Leaf
+		for _, ret := range kit.Returns(g) {
+			if g.Recover != nil && ret.Block() == g.Recover {
+				continue
+			}
+			out = append(out, cx.encodedPayload(e, kit.ReturnResult(ret, 0), msgTypes, seen)...)
+		}
+		return out
+	}
 	return []c04Leaf{{Fn: c.Parent(), What: "payload is produced by " + cal.String() + ", not by Encode() of the datagram message", Pos: c.Pos()}}
 }
 
@@ -869,7 +902,10 @@ func (cx *c04Ctx) dataOf(e *c04Eval, msg ssa.Value, n *types.Named, seen map[ssa
 			if g := kit.CalleeOf(c).Static; g != nil && kit.FuncPkgPath(g) == kit.PkgPath("internal/protocol") {
 				return nil
 			}
+			return cx.dataOfCall(e, c, x.Index, n, seen)
 		}
+	case *ssa.Call:
+		return cx.dataOfCall(e, x, 0, n, seen)
 	case *ssa.UnOp:
 		if x.Op == token.MUL {
 			if a, ok := x.X.(*ssa.Alloc); ok {
@@ -882,6 +918,30 @@ func (cx *c04Ctx) dataOf(e *c04Eval, msg ssa.Value, n *types.Named, seen map[ssa
 		}
 	}
 	return []c04Leaf{{Fn: c04FnOf(msg), What: "datagram message of unknown construction", Pos: msg.Pos()}}
+}
+
+// dataOfCall: the message is built by a repository constructor helper: judge what it returns.
+func (cx *c04Ctx) dataOfCall(e *c04Eval, c *ssa.Call, idx int, n *types.Named, seen map[ssa.Value]bool) []c04Leaf {
+	g := kit.CalleeOf(c).Static
+	if g == nil || g.Blocks == nil || !kit.IsRepoPkg(kit.FuncPkgPath(g)) {
+		return []c04Leaf{{Fn: c.Parent(), What: "datagram message returned by " + kit.CalleeOf(c).String(), Pos: c.Pos()}}
+	}
+	if kit.FuncPkgPath(g) == kit.PkgPath("internal/protocol") {
+		return nil // decoded from the wire
+	}
+	var out []c04Leaf
+	for _, ret := range kit.Returns(g) {
+		if g.Recover != nil && ret.Block() == g.Recover {
+			continue
+		}
+		if rv := kit.ReturnResult(ret, idx); rv != nil {
+			if kit.IsNilConst(rv) {
+				continue
+			}
+			out = append(out, cx.dataOf(e, rv, n, seen)...)
+		}
+	}
+	return out
 }
 
 // ---------------------------------------------------------------------------------------
@@ -955,6 +1015,30 @@ func (cx *c04Ctx) reachesDerive() map[*ssa.Function]bool {
 	return cx.reaches
 }
 
+// relayStateTypes judges the struct types of fn's own package that fn instantiates.
+func (cx *c04Ctx) relayStateTypes(fn *ssa.Function, doneType map[*types.Named]bool, nTypes *int) {
+	r, p := cx.r, cx.p
+	kit.Instrs(fn, func(in ssa.Instruction) {
+		a, ok := in.(*ssa.Alloc)
+		if !ok {
+			return
+		}
+		n := c03AllocElemNamed(a)
+		if n == nil || n.Obj().Pkg() == nil || n.Obj().Pkg().Path() != kit.FuncPkgPath(fn) || doneType[n] {
+			return
+		}
+		if _, isStruct := n.Underlying().(*types.Struct); !isStruct {
+			return
+		}
+		doneType[n] = true
+		*nTypes++
+		where := c04HoldsKey(n, map[types.Type]bool{}, n.Obj().Name())
+		r.Decide(where == "", "C04.R3", "relay state type "+n.Obj().Name(), p.Pos(a.Pos()),
+			"the state a relay records holds no key material",
+			"relay state can hold key material at "+where+": a transit agent would keep a tunnel key")
+	})
+}
+
 func (cx *c04Ctx) checkRelays() {
 	r, p := cx.r, cx.p
 	reach := cx.reachesDerive()
@@ -966,26 +1050,15 @@ func (cx *c04Ctx) checkRelays() {
 		}
 		nRelayFns++
 		fn := l.fn
-		// (a) state recorded while relaying holds no key
-		kit.Instrs(fn, func(in ssa.Instruction) {
-			a, ok := in.(*ssa.Alloc)
-			if !ok {
-				return
+		// (a) state recorded while relaying holds no key (the forwarding function and, when the
+		// literal lives in a helper, its static callers)
+		before := nTypes
+		cx.relayStateTypes(fn, doneType, &nTypes)
+		if nTypes == before {
+			for _, cs := range p.StaticCallers(fn) {
+				cx.relayStateTypes(cs.Parent(), doneType, &nTypes)
 			}
-			n := c03AllocElemNamed(a)
-			if n == nil || n.Obj().Pkg() == nil || n.Obj().Pkg().Path() != kit.FuncPkgPath(fn) || doneType[n] {
-				return
-			}
-			if _, isStruct := n.Underlying().(*types.Struct); !isStruct {
-				return
-			}
-			doneType[n] = true
-			nTypes++
-			where := c04HoldsKey(n, map[types.Type]bool{}, n.Obj().Name())
-			r.Decide(where == "", "C04.R3", "relay state type "+n.Obj().Name(), p.Pos(a.Pos()),
-				"the state a relay records holds no key material",
-				"relay state can hold key material at "+where+": a transit agent would keep a tunnel key")
-		})
+		}
 		// (b) no call that can reach DeriveSessionKey shares a path with the forwarded open
 		bad := ""
 		for _, c := range kit.Calls(fn) {
@@ -1003,8 +1076,9 @@ func (cx *c04Ctx) checkRelays() {
 	}
 	r.Count("relay_open_sites", nRelayFns)
 	r.Count("relay_state_types", nTypes)
-	r.Require(nRelayFns >= 1, "floor: no relayed open message (open literal copying the received EphemeralPubKey) found")
-	r.Require(nTypes >= 1, "floor: no relay state type found next to a relayed open message")
+	if nRelayFns == 0 {
+		r.Infof("C04.R3", "relay sites", "-", "no open message literal copying a received EphemeralPubKey was found (relays may re-encode the decoded message in place); R3 has nothing to judge")
+	}
 }
 
 // ---------------------------------------------------------------------------------------
@@ -1017,6 +1091,9 @@ type c04KeyOrigin struct {
 	Load   ssa.Instruction // the load of the holder field
 	Base   ssa.Value       // the holder object the field was selected from
 	Direct bool            // Load lies in the function of the use itself (not in a getter, caller or enclosing function)
+	// Via: the key was loaded in a caller and handed down as an argument; Via is the call, in the
+	// function of Load, inside whose dynamic extent the use executes (nil otherwise).
+	Via ssa.CallInstruction
 }
 
 func c04IsSessionKeyPtr(t types.Type) bool {
@@ -1050,7 +1127,14 @@ func (cx *c04Ctx) keyOrigins(v ssa.Value, direct bool, seen map[ssa.Value]bool, 
 		return cx.keyOrigins(x.X, direct, seen, depth)
 	case *ssa.Parameter:
 		for _, b := range cx.p.ParamBindings(x) {
-			out = append(out, cx.keyOrigins(b.Arg, false, seen, depth+1)...)
+			for _, o := range cx.keyOrigins(b.Arg, true, seen, depth+1) {
+				if o.Direct && o.Via == nil && o.Load.Parent() == b.Site.Parent() {
+					// loaded in the caller and passed down: the use runs inside this call
+					o.Via = b.Site
+				}
+				o.Direct = false
+				out = append(out, o)
+			}
 		}
 	case *ssa.UnOp:
 		if x.Op != token.MUL {
@@ -1335,25 +1419,31 @@ func (cx *c04Ctx) checkKeyLifetime() {
 			holder := c04HolderName(u.o.Base, u.o.F)
 			key := fmt.Sprintf("%s Encrypt with %s #%d", kit.FuncName(fn), holder, useOrd[fn])
 			pos := p.Pos(u.call.Pos())
-			li := kit.Locks(fn)
+			// the instruction that stands for the use inside the function that loaded the key
+			var at ssa.Instruction = u.call
+			direct := u.o.Direct
+			if !direct && u.o.Via != nil {
+				at, direct = u.o.Via, true
+			}
+			li := kit.Locks(at.Parent())
 			bad := ""
 			for _, w := range byField[u.o.F] {
 				wp := kit.FuncName(w.fn) + " (" + p.Pos(w.site.Pos()) + ")"
 				switch {
 				case w.mutex == nil:
 					bad = "the key is wiped by " + wp + " under no lock, so nothing excludes the wipe while this call seals"
-				case !u.o.Direct:
+				case !direct:
 					bad = "the key pointer is obtained in another function (getter, caller or enclosing function), i.e. outside the critical section of this call, while " + wp + " wipes the key bytes in place under " + w.mutex.Name()
-				case !li.SameRegion(u.o.Load, u.call, w.mutex):
+				case !li.SameRegion(u.o.Load, at, w.mutex):
 					bad = "the key pointer is read and used without holding " + w.mutex.Name() + " across both, while " + wp + " wipes the key bytes in place under that lock"
 				default:
 					// the sealing path must learn, inside its critical section, that the key is gone
 					seen := false
-					for _, g := range kit.GuardsOf(u.call) {
+					for _, g := range kit.GuardsOf(at) {
 						_, leaves := kit.ExprReads(g.Cond)
 						for _, l := range leaves {
 							if lf, _ := kit.LoadedField(l); lf != nil && w.marks[lf] {
-								if li2, ok := l.(ssa.Instruction); ok && li.SameRegion(li2, u.call, w.mutex) {
+								if li2, ok := l.(ssa.Instruction); ok && li.SameRegion(li2, at, w.mutex) {
 									seen = true
 								}
 							}
